@@ -848,13 +848,40 @@ func (env *SpecEnv) evalCall(e *Expr) TV {
 				oe.resolve = env.oldResolve
 			}
 			return oe.eval(args[0])
-		case "ret":
+		case "called":
+			// called(callee#k): the k-th call site of callee was executed on this path
+			if len(args) != 1 || args[0].K != "id" {
+				sfail("called(callee#k) needs a call-site name")
+			}
+			site := args[0].Name
+			if !strings.Contains(site, "#") {
+				site += "#1"
+			}
+			if v, ok := env.st.heap["called|"+site]; ok {
+				return boolTV(v)
+			}
+			return boolTV("false")
+		case "ret", "ret0", "ret1", "ret2":
+			// ret(callee#k): the value returned by the k-th call site of callee (first result of a
+			// tuple; ret1, ret2 select the others). Unconstrained when that call was not executed
+			// on this path: guard with called(callee#k).
 			if env.resolveRet == nil || len(args) != 1 || args[0].K != "id" {
 				sfail("ret(callee#k) is only available in assert clauses")
 			}
 			tv, ok := env.resolveRet(args[0].Name)
 			if !ok {
-				sfail("ret(%s): no such call site executed before this point", args[0].Name)
+				sfail("ret(%s): no such call site in this function", args[0].Name)
+			}
+			if tup, isTup := tv.V.(TupleV); isTup {
+				k := 0
+				if callee.Name != "ret" {
+					k = int(callee.Name[3] - '0')
+				}
+				tt := tv.T.(*types.Tuple)
+				if k >= len(tup) {
+					sfail("%s: call has %d results", callee.Name, len(tup))
+				}
+				return TV{tup[k], tt.At(k).Type()}
 			}
 			return tv
 		case "len", "cap":
